@@ -110,6 +110,7 @@ def main():
     ap.add_argument("--jobs", type=int, default=4)
     ap.add_argument("--seeded", action="store_true", help="run seeded/<name>/patch.diff instead of selftest/mutants.json")
     ap.add_argument("--out", default=None)
+    ap.add_argument("--ids", default=None, help="comma-separated exact ids")
     ap.add_argument("--wave", type=int, default=None, help="with --seeded: only changes whose meta.json has this wave number")
     a = ap.parse_args()
     if a.seeded:
@@ -128,6 +129,9 @@ def main():
         muts = json.load(open(os.path.join(ROOT, "selftest", "mutants.json")))
     if a.only:
         muts = [m for m in muts if a.only in m["id"] or a.only == m["property"]]
+    if a.ids:
+        want = set(a.ids.split(","))
+        muts = [m for m in muts if m["id"] in want]
     res = []
     with cf.ThreadPoolExecutor(max_workers=a.jobs) as ex:
         for r in ex.map(lambda m: run_one(m, a.tier, not a.no_tests), muts):
